@@ -104,6 +104,8 @@ if os.path.isdir(nd) and os.path.exists(os.path.join(nd, "RESULTS.json")):
             nfa += 1
         if m.get("status") == "rejected":
             now = "rejected: the change does break the property (%s)" % m.get("rejected_reason", "")[:160]; nrj += 1
+        elif m.get("status") == "superseded":
+            now = "superseded by a later fix: commit (%s)" % m.get("superseded_reason", "")[:120]
         elif r.get("quiet"):
             now = "quiet"; nq += 1
         elif r.get("quiet") is None:
